@@ -701,7 +701,14 @@ void SoPlexBase<R>::_storeSolutionReal(bool verify)
    else if(_realLP != &_solver)
    {
       assert(_solver.isScaled());
+
+      typename SPxBasisBase<R>::SPxStatus scaledBasisStatus = _solver.getBasisStatus();
+
+      // loading the LP discards the basis of the solver: put the basis of the scaled LP, which is a basis of the original
+      // LP as well, back
       _loadRealLP(false);
+      _solver.setBasisStatus(scaledBasisStatus);
+      _solver.setBasis(_basisStatusRows.get_const_ptr(), _basisStatusCols.get_const_ptr());
    }
 
    // unscale stored solution (removes persistent scaling)
